@@ -285,9 +285,10 @@ def ob_underflow_gradient(use_tip_states):
     enough to underflow (JC69 caterpillar, 700 taxa): what the symbolic stop-gradient ghost cannot see (0 x inf in a backward pass)."""
     def body():
         import contracts.C03 as C03
+        from specs import treemodels
         torch.set_num_threads(1)
         first = C03._caterpillar_model(700, False, use_tip_states)
-        p1 = first.tree_model._branch_lengths
+        p1 = treemodels.tree_parameter(first.tree_model)
         p1.requires_grad = True
         v1 = first()
         if first.rescale is not True:
@@ -295,7 +296,7 @@ def ob_underflow_gradient(use_tip_states):
         v1.sum().backward()
         g1 = p1.grad.detach().clone()
         ref = C03._caterpillar_model(700, True, use_tip_states)
-        p2 = ref.tree_model._branch_lengths
+        p2 = treemodels.tree_parameter(ref.tree_model)
         p2.requires_grad = True
         v2 = ref()
         v2.sum().backward()
@@ -333,7 +334,7 @@ def _late_grad_world(requires_grad_first):
     theta = TransformedParameter("theta", log_theta, torch.distributions.ExpTransform())
     coal = co.ConstantCoalescentModel("coal", theta, tm)
     joint = JointDistributionModel("joint", [coal, tm, theta])
-    leaves = [tm._internal_heights, log_theta]
+    leaves = [treemodels.tree_parameter(tm), log_theta]
     if requires_grad_first:
         for p in leaves:
             p.requires_grad = True
